@@ -31,13 +31,13 @@ theorem afterSeg_dot (r : Str) : afterSeg ('.' :: r) = some r := by
   simp [afterSeg, this]
 
 /-- one iteration of the `for` loop of `parseKey` -/
-theorem parseKeyLoop_step {inp rest v : Str} {k : Quoting} (n : Nat) (acc : List Seg)
-    (hgo : keyLook inp = .go) (hps : parseString true inp = .seg k v rest)
+theorem parseKeyLoop_step {e : Bool} {inp rest v : Str} {k : Quoting} (n : Nat) (acc : List Seg)
+    (hgo : keyLook inp = .go) (hps : parseString true e inp = .seg k v rest)
     (hat : k = .unq → v.head? ≠ some '@') :
-    parseKeyLoop (n + 1) inp acc =
+    parseKeyLoop e (n + 1) inp acc =
       match afterSeg rest with
       | none => finishKey (acc ++ [⟨k, v⟩]) rest
-      | some rest' => parseKeyLoop n rest' (acc ++ [⟨k, v⟩]) := by
+      | some rest' => parseKeyLoop e n rest' (acc ++ [⟨k, v⟩]) := by
   have hno : (k == .unq && v.head? == some '@') = false := by
     cases hk : (k == Quoting.unq) with
     | false => simp
@@ -66,11 +66,11 @@ theorem finishKey_ok {path : List Seg} (hne : path ≠ []) (hlen : ∀ g ∈ pat
 theorem parseKeyLoop_join : ∀ (names : List Str), names ≠ [] → (∀ n ∈ names, NameOk n) →
     ∀ (fuel : Nat), names.length ≤ fuel → ∀ (acc : List Seg), (∀ g ∈ acc, utf8LenStr g.val ≤ maxKeyLen) →
     ∃ segs : List Seg, segs.map (·.val) = names ∧
-      parseKeyLoop fuel (joinDot (names.map objID)) acc = .ok (acc ++ segs) []
+      parseKeyLoop false fuel (joinDot (names.map objID)) acc = .ok (acc ++ segs) []
   | [], hne, _, _, _, _, _ => absurd rfl hne
   | [a], _, hok, fuel, hf, acc, hacc => by
     obtain ⟨hlen, hnull, hkw⟩ := hok a (by simp)
-    obtain ⟨k, hps, hat, hgood⟩ := parseString_fmtKey (rest := []) (Or.inl rfl) hnull hkw
+    obtain ⟨k, hps, hat, hgood⟩ := parseString_fmtKey (e := false) (rest := []) (Or.inl rfl) hnull hkw
     rw [List.append_nil] at hps
     cases fuel with
     | zero => simp at hf
@@ -91,7 +91,7 @@ theorem parseKeyLoop_join : ∀ (names : List Str), names ≠ [] → (∀ n ∈ 
     | succ n =>
       have hf' : (b :: rest).length ≤ n := by simp at hf ⊢; omega
       let R := joinDot ((b :: rest).map objID)
-      obtain ⟨k, hps, hat, hgood⟩ := parseString_fmtKey (rest := '.' :: R) (Or.inr ⟨R, rfl⟩) hnull hkw
+      obtain ⟨k, hps, hat, hgood⟩ := parseString_fmtKey (e := false) (rest := '.' :: R) (Or.inr ⟨R, rfl⟩) hnull hkw
       have hacc' : ∀ g ∈ acc ++ [⟨k, a⟩], utf8LenStr g.val ≤ maxKeyLen := by
         intro g hg
         rcases List.mem_append.mp hg with h | h
@@ -117,7 +117,7 @@ theorem joinDot_length : ∀ (ts : List Str), (∀ t ∈ ts, 1 ≤ t.length) →
 
 theorem objID_length {s : Str} (h : NameOk s) : 1 ≤ (objID s).length := by
   obtain ⟨_, hnull, hkw⟩ := h
-  obtain ⟨_, _, _, hgood⟩ := parseString_fmtKey (rest := []) (Or.inl rfl) hnull hkw
+  obtain ⟨_, _, _, hgood⟩ := parseString_fmtKey (e := false) (rest := []) (Or.inl rfl) hnull hkw
   exact goodHead_length hgood
 
 end D2V.Quote
